@@ -512,6 +512,10 @@ func c12Origins() []c12Origin {
 		{"http://localhost.evil.example", "app.local:817", false, false},
 		{"null", "app.local:817", false, false},
 		{"://bad", "app.local:817", false, false},
+		// a request without a Host header (HTTP/1.0): an origin without a host is no match
+		{"null", "", false, false},
+		{"evil", "", false, false},
+		{"file:///etc/passwd", "", false, false},
 	}
 }
 
